@@ -382,3 +382,31 @@ def DedupAliasWritten (p : Program) (g : Fir.Unit) (gs : List (Ex × List String
   gs.any fun grp => grp.2.length ≥ 2 && grp.2.any fun r => (writtenIn p g.body).contains r
 
 end LokiModel.C34
+
+namespace LokiModel.C34
+open LokiModel.Fir
+
+/-- class `dedup-second-caller-misaligned`: some callee receives duplicated actuals in calls from two different units -/
+def KnownDedupMulti (p : Program) : Bool :=
+  p.units.any fun g =>
+    decide ((p.units.filter fun u =>
+      (callsOf u.body).any fun c => c.1 == g.name && (groupArgs g.args c.2 []).any fun grp => decide (grp.2.length ≥ 2)).length ≥ 2)
+
+/-! ### classes of the oracle-only kinds (generated Fortran call trees; the parameters are those of the generating spec) -/
+
+/-- `shape-lower-bound-imported`: declared lower bounds of the passed dimensions -/
+def KnownShapeLb (lbs : List Int) : Bool := lbs.any (· != 1)
+/-- `shape-symbol-captured` -/
+def KnownShapeCapture (calleeDeclaresShapeSymbol : Bool) : Bool := calleeDeclaresShapeSymbol
+/-- `dtype-member-lower-bound-lost`: lower bounds of the expanded member arrays -/
+def KnownDtLb (lbs : List Int) : Bool := lbs.any (· != 1)
+/-- `dtype-expanded-name-clash`: names declared in the kernel vs expanded names -/
+def KnownDtClash (declared expanded : List String) : Bool := expanded.any declared.contains
+/-- `tbound-pass-not-first`: position of the passed-object dummy -/
+def KnownTbPass (passPos : Nat) : Bool := passPos != 0
+/-- `tbound-nopass` -/
+def KnownTbNopass (nopass : Bool) : Bool := nopass
+/-- `seq-keyword-arguments-duplicated`: number of keyword arguments of a call that is rewritten -/
+def KnownSeqKw (nKeyword : Nat) : Bool := nKeyword != 0
+
+end LokiModel.C34
